@@ -80,6 +80,13 @@ def roundtrip_cases(tier):
         cases.append((asn, hold, i, {}))
     for hold in range(0, 65536, 1 if tier == 'thorough' else 17):
         cases.append((65001, hold, 0x0A000001, rep))
+    # more capabilities than the one-octet Optional Parameters Length holds (> 255 octets): the encoder may refuse, or must build an
+    # OPEN that still says what was asked (the true AS number in particular)
+    for n_en in (38, 42, 60):
+        big = {'afi_safi': AFIS[:3], 'route_refresh': True, 'cisco_route_refresh': True, 'four_bytes_as': True, 'enhanced_route_refresh': True,
+               'ext_nexthop': [{'afi_safi': [1, (1, 128, 4)[i % 3]], 'nexthop_afi': 2} for i in range(n_en)], 'add_path': ADD_PATH[-1]}
+        for asn in (65001, 65536, 4200000000):
+            cases.append((asn, 180, 0x0A000001, big))
     return cases
 
 
@@ -96,6 +103,22 @@ def task_roundtrip(chunk):
                'add_path' if caps.get('add_path') else '-', 'afi%d' % len(caps.get('afi_safi') or ()))
         classes.add(cls + (tuple(sorted(want['capabilities'])),))
         st, val, steps = budget.run(20000, lambda: Open(version=4, asn=asn, hold_time=hold, bgp_id=bid).construct(dict(caps)))
+        oversize = len(caps.get('ext_nexthop') or ()) >= 38
+        if oversize and st == 'raise':
+            continue            # refused: these do not fit behind a one-octet length
+        if oversize and st == 'ok':
+            # built after all (something was left out to make it fit): whatever was left out, the AS number, hold time and identifier
+            # are those asked for - in the fixed fields and in the 4-octet-AS capability
+            try:
+                ref = wire.parse_open(val[19:])
+                as4 = [c for c in ref.get('caps', []) if c[0] == 65]
+                said = struct.unpack('!I', as4[0][1])[0] if as4 else ref['asn']
+                if said != asn or ref['hold'] != hold or ref['bgp_id'] != bid:
+                    v.append(('C14|open|oversize capability set|constructed OPEN carries other values (reference decode)',
+                              {'asn': asn, 'hold': hold, 'bgp_id': bid, 'announced_as': said, 'hex': val.hex()[:200]}))
+            except (ValueError, struct.error, KeyError, IndexError) as e:
+                v.append(('C14|open|oversize capability set|constructed OPEN does not parse: %s' % e, {'hex': val.hex()[:200]}))
+            continue
         if st != 'ok':
             v.append(('C14|open|%s|construct: %s' % ('/'.join(cls), 'overrun' if st == 'overrun' else 'exception:' + type(val).__name__),
                       {'asn': asn, 'hold': hold, 'bgp_id': bid, 'caps': caps}))
